@@ -211,10 +211,37 @@ func runFixed(c *core.Ctx, i int) {
 		})
 		r.query(q1(1, fnSum))
 	case 15:
-		// reserved (keeps the indices of the random cases stable)
+		// rate over a binary expression whose operands have arrays without values: series A has
+		// data in the memory database, outside the query range (series B inside), so the leaf
+		// answers A's group with a valueless array; binaryEval returns a nil array, RateCall
+		// dereferences it
 		r.oracleOn = true
-		r.writeRow(0, sA, 5+i, 0, w1(1, float64(i)), nil, false)
-		r.query(q1(1, fnSum))
+		r.writeRow(0, sA, 5, 0, w1(2, 7), nil, false)
+		r.writeRow(0, sB, 15, 0, w1(2, 3), nil, false)
+		q := qSpec{qs: 10, qe: 20, ratio: 1, cond: allCond(), by: []int{1}, items: []qItem{{2, fnMin}}}
+		r.query(q)
+		fm := &xnode{kind: "f", fld: 2}
+		x := &xnode{kind: "c", fn: fnRate, l: &xnode{kind: "b", op: 1, l: fm, r: fm}}
+		groups, err := r.e.exprEvalX(q, []*xnode{x})
+		g := groups["[1]"]
+		switch {
+		case err != nil || g == nil || len(g.items) != 1:
+			r.c.Note(fmt.Sprintf("rate witness: the leaf did not answer the group (err=%v, groups=%d)", err, len(groups)))
+			r.c.Branch("witness/not-reproduced:expr-rate-of-valueless-operands-panics")
+		default:
+			sec := int(r.ivMs / 1000)
+			want := x.eval(g.n, sec, g.store, 0)
+			r.c.Op(fmt.Sprintf("x %d %d | %s | %s", g.n, sec, x.proto(), g.store.proto()), g.items[0].render(want))
+			switch {
+			case g.items[0].status == "crash" && want.status == "crash":
+				r.c.Branch("witness/reproduced:expr-rate-of-valueless-operands-panics")
+				r.c.Fail("expr-rate-of-valueless-operands-panics", fmt.Sprintf("select %s over a group whose %s array holds no value in the query range: %s", x.sql(), schema[2].name, g.items[0].panic))
+			case g.items[0].status == "empty" && want.status == "crash":
+				r.c.Branch("witness/repaired-passes:expr-rate-of-valueless-operands-panics")
+			default:
+				r.c.Fail("expr-ne-reference", fmt.Sprintf("rate witness: store {%s}: expression gives %q, point by point %q", g.store.proto(), g.items[0].render(want), want.render()))
+			}
+		}
 	}
 }
 
